@@ -596,6 +596,7 @@ func genC06(c *Ctx) {
 			if back.K != sx.KBits || back.Bits != s {
 				c.Fail("c06.fromfift", sx.Str(txt), "fift-roundtrip", "Fift hex does not convert back to the same bits")
 			}
+			c06TextOracles(c, s, txt)
 		}
 	}
 	nMal := c.Scale(400, 20000)
@@ -620,4 +621,6 @@ func genC06(c *Ctx) {
 	c.Emit("c06.minbits", sx.N(^uint64(0)), "minbits|max")
 	// 6. derived bit strings (results of ReadBits / ReadRemainingBits / Copy / RawBitString): c06d.go
 	genC06Derived(c)
+	// 7. reference slots and cursor of boc.Cell: c06r.go
+	genC06Refs(c)
 }
